@@ -71,4 +71,22 @@ def run(ctx):
         "flat preorder listings are validated against Preorder(nested tree) by TLC only for documents of <= 40 nodes; larger documents rely on the same harness code plus the local WellFormed conditions",
     ]
 
-# MUTANTS: (filled in after mutation testing, see bottom of file)
+# MUTANTS (scratch worktree of /repo, VERIF_REPO=..., quick tier; "caught" = VIOLATION + exit 1):
+#  1 light.rs JsonFields::find_cursor keeps the FIRST duplicate            caught (find at a duplicated key, r differs)
+#  2 light.rs JsonFields::find keeps the FIRST duplicate                   caught (find: kind/start of the value differs)
+#  3 light.rs decode_escapes surrogate guard `i + 6 < len` -> `i + 7 < len` caught (string ending in a surrogate pair: as_str Err)
+#    (the Appendix-A form `<` -> `<=` is equivalent on valid JSON: it only changes an out-of-range read
+#     that valid text never reaches)
+#  4 light.rs text_range string arm `i += 2` -> `i += 1` after a backslash caught (range of a string containing \")
+#  5 light.rs nested_number_span drops `E`                                 caught (range/num of 1E5)
+#  6 light.rs JsonElements::get_fast loop `0..index` -> `1..index`         caught (get fast=1)
+#  7 light.rs text_range container arm: `i += 1` after a backslash         caught (range of a container holding "\"]")
+#  8 light.rs parse_hex4 upper-case digits off by one                      caught (str with \uXXXX upper-case hex)
+#  9 bp.rs next_sibling `close + 1 < len` -> `close + 2 < len`             not caught: EQUIVALENT on balanced BP (an open
+#    parenthesis is never the last bit), no observable difference through JsonCursor
+# 10 light.rs JsonFields::uncons rest = key.next_sibling()                 caught (fields)
+# 11 light.rs children() starts at the second child                        caught (children)
+# 12 light.rs value(): "false" reported as Bool(true)                      caught (value kind)
+# 13 light.rs decode_escapes maps \u2028 to U+2029 (single code point)    MISSED by the first generator (random code points)
+#    -> strengthened: families usweep-u / usweep-lit put EVERY BMP scalar value (and samples of every
+#    astral plane) once in \uXXXX form and once literally into each run; see final report for the re-run.
